@@ -341,7 +341,10 @@ def check_native(case):
 
 
 HIST_OPS = ["attach", "attach", "attach", "orbit_propagate", "new", "copy", "sweep",
-            "scribble", "scribble", "repeat", "repeat"]
+            "scribble", "scribble", "repeat", "repeat", "edit", "edit"]
+# metadata of an element set: not in the six-element array, but part of what is propagated (bstar) or
+# of the text the wrapper regenerates (the others)
+META_FIELDS = ["bstar", "bstar", "bstar", "ndot", "nddot", "cat", "desig", "rev", "elnum"]
 SCRIBBLES = ["zero", "dv", "form", "frame"]
 _HIST_DT = gt._mix((6, gt.uniform_int(-3 * DAY_US, 3 * DAY_US)), (2, gt.uniform_int(-SPAN_US, SPAN_US)),
                    (1, st.sampled_from([0, 60 * 10**6, -DAY_US])))
@@ -358,15 +361,62 @@ def history_case(draw):
         # successive element sets of ONE object: same catalogue number and designator
         for f in tles[1:]:
             f["cat"], f["desig"] = tles[0]["cat"], tles[0]["desig"]
+    variants = None
+    if draw(st.integers(0, 2)) == 0:
+        # variants of ONE element set: same epoch and six elements, ONE metadata field different in each
+        # (a drag sensitivity study, a renumbered object, the next element-set number ...)
+        variants = []
+        for k in range(1, n):
+            field = draw(st.sampled_from(META_FIELDS))
+            tles[k] = dict(tles[0])
+            _vary(tles[k], field, draw(st.integers(0, 999)))
+            variants.append(field)
     nops = draw(st.integers(3, 10))
     plan = draw(gt.uniform_int(0, 10**60 - 1))
     ops = []
     for k in range(nops):
         r = plan // 10 ** (6 * k) % 10**6
-        ops.append(dict(op=HIST_OPS[r % 11], kind=("wrapper", "native")[r // 11 % 2], prop=r // 22 % 3,
-                        tle=r // 66 % 3, how=SCRIBBLES[r // 198 % 4], spell=("date", "timedelta")[r // 792 % 2],
-                        dt_us=draw(_HIST_DT)))
-    return dict(tles=tles, nprops=draw(st.integers(2, 3)), ops=ops)
+        ops.append(dict(op=HIST_OPS[r % 13], kind=("wrapper", "native")[r // 13 % 2], prop=r // 26 % 3,
+                        tle=r // 78 % 3, how=SCRIBBLES[r // 234 % 4], spell=("date", "timedelta")[r // 936 % 2],
+                        field=META_FIELDS[r // 1872 % 9], val=draw(st.integers(0, 999)), dt_us=draw(_HIST_DT)))
+    return dict(tles=tles, nprops=draw(st.integers(2, 3)), ops=ops, variants=variants)
+
+
+def _vary(f, field, val):
+    """Give ONE metadata field of the field set `f` another value (deterministic in `val`)."""
+    if field == "bstar":
+        old = f["bstar"]
+        new = dict(s=-1 if val % 5 == 0 else 1, m=0 if val % 7 == 0 else 10000 + val * 89 % 90000, x=-3 - val % 4)
+        if (new["m"], new["s"] if new["m"] else 1, new["x"] if new["m"] else 0) == (
+                old["m"], old["s"] if old["m"] else 1, old["x"] if old["m"] else 0):
+            new["m"] = 54321
+        if new["m"] == 0:
+            new.update(s=1, x=0)
+        f["bstar"] = new
+    elif field == "ndot":
+        f["ndot"] = (f["ndot"] + 1 + val * 97) % 99999
+    elif field == "nddot":
+        f["nddot"] = dict(s=1, m=10000 + val * 53 % 90000, x=-5 - val % 4) if f["nddot"]["m"] == 0 or val % 2 else dict(s=1, m=0, x=0)
+    elif field == "cat":
+        f["cat"] = (f["cat"] + 1 + val) % 100000
+    elif field == "desig":
+        f["desig"] = dict(yy=(60 + val) % 100, launch=1 + val % 999, piece="ABC"[val % 3])
+    elif field == "rev":
+        f["rev"] = (f["rev"] + 1 + val * 13) % 100000
+    elif field == "elnum":
+        f["elnum"] = (f["elnum"] + 1 + val) % 10000
+
+
+def _apply_meta(orb, f):
+    """Write the metadata of field set `f` on the orbit IN PLACE (what a caller does to prepare the next
+    element set from the one he has)."""
+    orb.bstar = float(tf.exp_value(f["bstar"]))
+    orb.ndot = f["ndot"] / 1e8 * 2
+    orb.ndotdot = float(tf.exp_value(f["nddot"])) * 6
+    orb.norad_id = f["cat"]
+    orb.cospar_id = tf.cospar(f)
+    orb.revolutions = f["rev"]
+    orb.element_nb = f["elnum"]
 
 
 def check_history(case):
@@ -384,7 +434,7 @@ def check_history(case):
     from beyond.propagators.sgp4 import Sgp4
     from beyond.propagators.sgp4beta import Sgp4Beta
 
-    tles = case["tles"]
+    tles = [dict(f) for f in case["tles"]]  # the model: what each orbit holds NOW
     n = len(tles)
     orbits = [Tle(tf.format_text(f)).orbit() for f in tles]
     klass = dict(wrapper=Sgp4, native=Sgp4Beta)
@@ -479,6 +529,16 @@ def check_history(case):
             else:
                 handed.append(got)
                 last["wrapper"][j] = (got, op["dt_us"], i)
+        elif name == "edit":
+            # one metadata field of the orbit is changed in place, then the orbit is handed again to the
+            # propagators it is attached to: they must answer for the orbit as it is NOW
+            _vary(tles[i], op.get("field", "bstar"), op.get("val", 0))
+            _apply_meta(orbits[i], tles[i])
+            labels.append(f"edit:{op.get('field', 'bstar')}")
+            for k in klass:
+                for jj in range(case["nprops"]):
+                    if attached[k][jj] == i:
+                        props[k][jj].orbit = orbits[i]
         elif name == "scribble":
             # the caller works on the state it was given: in place
             for k in klass:
@@ -508,6 +568,8 @@ def check_history(case):
         labels.append("two-or-more-attached")
     if tles[0]["cat"] == tles[1]["cat"]:
         labels.append("same-object")
+    for field in case.get("variants") or ():
+        labels.append(f"variant-of-one-set:{field}")
     return dict(nt=compared >= 3 and kinds_live >= 2, cls=sorted(set(labels)), ratio=worst)
 
 
